@@ -31,6 +31,7 @@ type Case struct {
 var (
 	labels   = []string{"a", "b", "c", "d", "e", "f", "g", "api", "ww", "a1"}
 	suffixes = []string{"b.com", "c.io", "d.net", "a.b.com", "b.com.", "com"}
+	ipv6     = []string{"::1", "fe80::ab", "2001:db8::a:1"} // IPv6 literals are domains too; they arrive in brackets
 	tokens   = []string{"{sub}", "{s2}", `{n:\d+}`, "{w:word}", "{-sub}", `{any:[^.]+}`, "{d:digit}", "{sub2}"}
 	icpt     = pat.Icpt{"word": "word", "digit": "digit"}
 )
@@ -82,6 +83,8 @@ func gen(t *rapid.T) Case {
 				pool = append(pool, labels[(off+j)%len(labels)]+"."+suf)
 			}
 			pool = append(pool, rapid.SampledFrom(tokens).Draw(t, "btok")+"."+suf)
+		} else if rapid.IntRange(0, 7).Draw(t, "v6") == 0 {
+			pool = append(pool, rapid.SampledFrom(ipv6).Draw(t, "ipv6"))
 		} else {
 			pool = append(pool, genDomain(t, c.Icpt))
 		}
@@ -119,7 +122,8 @@ func gen(t *rapid.T) Case {
 		var h string
 		switch rapid.IntRange(0, 9).Draw(t, "hmode") {
 		case 0:
-			h = rapid.SampledFrom([]string{"", "*", "[::1]", "[::1]:80", "::1", "a:b:c", "[", "]", ":", "b.com", "B.COM:443", "b.com:", "b.com:x", "[a.b.com]:1"}).Draw(t, "hspecial")
+			h = rapid.SampledFrom([]string{"", "*", "[::1]", "[::1]:80", "::1", "a:b:c", "[", "]", ":", "b.com", "B.COM:443", "b.com:", "b.com:x", "[a.b.com]:1",
+				"[::1]:8080", "[FE80::AB]", "[fe80::ab]:443", "[2001:db8::a:1]", "[2001:DB8::A:1]:80", "[::1", "::1]:80"}).Draw(t, "hspecial")
 		case 1:
 			h = rapid.String().Draw(t, "hany")
 		default:
@@ -182,6 +186,14 @@ func normalise(h string) string {
 type result struct {
 	ok     bool
 	params map[string]string
+}
+
+// asHost renders a (normalised) domain instance the way a client sends it: IPv6 literals in brackets.
+func asHost(w string) string {
+	if strings.Contains(w, ":") {
+		return "[" + w + "]"
+	}
+	return w
 }
 
 func match(hs *mux.Hosts, host string) (result, any, bool) {
@@ -269,7 +281,7 @@ func check(c Case, st *rig.Stats) error {
 			if !ok {
 				continue
 			}
-			res, v, panicked := match(hs, w)
+			res, v, panicked := match(hs, asHost(w))
 			if panicked {
 				return rig.Violf("panic", "%s: Match(%q) panicked: %v", when, w, v)
 			}
@@ -296,7 +308,7 @@ func check(c Case, st *rig.Stats) error {
 		if s.Del && delPat != nil {
 			// the deleted domain is gone
 			if w, _, ok := delPat.Witness(i); ok {
-				res, v, panicked := match(hs, w)
+				res, v, panicked := match(hs, asHost(w))
 				if panicked {
 					return rig.Violf("panic", "%s: Match(%q) panicked: %v", when, w, v)
 				}
@@ -315,7 +327,7 @@ func check(c Case, st *rig.Stats) error {
 				if delPat.Matches(b.host) {
 					continue
 				}
-				res, _, _ := match(hs, b.host)
+				res, _, _ := match(hs, asHost(b.host))
 				if res.ok != b.res.ok || !rig.EqualParams(res.params, b.res.params) {
 					return rig.Violf("delete-changed-other-domain", "%s: host %q resolved to %v %v before Delete(%q) and to %v %v after, although the deleted domain does not match it; live %v", when, b.host, b.res.ok, b.res.params, s.Domain, res.ok, res.params, names())
 				}
